@@ -7,6 +7,7 @@ mod c08;
 mod c11;
 mod c12;
 mod c16;
+mod c20;
 mod core;
 mod lc;
 mod lcgen;
@@ -29,6 +30,7 @@ fn prop_by_id(id: &str) -> Option<Box<dyn Prop>> {
         "C11" => Box::new(c11::C11),
         "C12" => Box::new(c12::C12),
         "C16" => Box::new(c16::C16),
+        "C20" => Box::new(c20::C20Prop),
         "C15" => Box::new(rem::C15),
         _ => return None,
     })
